@@ -378,6 +378,7 @@ def run_once(sc, close_step=None):
                                  for dc in w.clock.getDelayedCalls()]
         traps.flush()
     rec["unhandled"] = traps.unhandled
+    rec["second_firings"] = traps.second_firings
     return rec
 
 
@@ -525,6 +526,8 @@ def check(res, rec):
             res.violate("fired-twice/AlreadyCalledError", e[3][-400:])
         else:
             res.ev("diag_reactor_event_raised_" + e[2])
+    for (where_, stack_, _did) in rec.get("second_firings", ()):
+        res.ev("diag_second_firing_attempted_" + where_)
     for u in rec["unhandled"]:
         res.ev("diag_unhandled_failure_" + u[0])
     if state not in ("idle",):
